@@ -10,6 +10,7 @@ import (
 	"bufio"
 	"context"
 	"encoding/hex"
+	"encoding/json"
 	"fmt"
 	"os"
 	"sort"
@@ -219,6 +220,7 @@ type runner struct {
 	pmu      sync.Mutex
 	passed   []passage // window yield points passed since the last report (comparison run)
 	epi      bool
+	acq      map[int]*acqState
 }
 
 // a registered thread went through a transparent window yield point
@@ -229,6 +231,92 @@ type passage struct {
 
 func isWindow(label string) bool   { return strings.HasPrefix(label, "W") }
 func isSentinel(label string) bool { return strings.HasPrefix(label, "X") }
+
+// an ADDITIONAL mutex acquisition inside a model step (W<Recv.Func>#<ordinal>, see AcqTable)
+func isAdditional(label string) bool { return isWindow(label) && strings.Contains(label, "#") }
+
+// AcqRule: the mutex acquisition sites ("<Recv.Func>:<text>") a thread goes through after it was released from a model label:
+// Head in order (each element a list of alternatives), then Loop repeated. Anything else before the next model label is an
+// additional acquisition: the code has more critical sections in that step than the model.
+type AcqRule struct {
+	Head [][]string `json:"head"`
+	Loop [][]string `json:"loop"`
+}
+
+// AcqTable (anchors.json "acquisitions"."allowed", file named by SCHED_ACQ_TABLE); nil: every site is transparent.
+var AcqTable map[string]AcqRule
+
+func LoadAcqTable(path string) {
+	AcqTable = nil
+	if path == "" {
+		return
+	}
+	b, err := os.ReadFile(path)
+	if err != nil {
+		return
+	}
+	var t map[string]AcqRule
+	if json.Unmarshal(b, &t) == nil {
+		AcqTable = t
+	}
+}
+
+func (ru AcqRule) at(n int) []string {
+	if n < len(ru.Head) {
+		return ru.Head[n]
+	}
+	if len(ru.Loop) > 0 {
+		return ru.Loop[(n-len(ru.Head))%len(ru.Loop)]
+	}
+	return nil
+}
+
+// per thread: the model label it was last released from, the number of acquisition sites gone through since, and whether one
+// of them was already additional
+type acqState struct {
+	cur   string
+	n     int
+	extra bool
+}
+
+// classify: an acquisition site "A:<Recv.Func>#<ordinal>:<text>" reached by thread id. "" = it coincides with the model step
+// (transparent), else the window label of the additional acquisition.
+func (r *runner) classify(id int, label string) string {
+	site := strings.TrimPrefix(label, "A:")
+	i := strings.Index(site, ":")
+	if i < 0 {
+		return ""
+	}
+	fnord, text := site[:i], site[i+1:]
+	fn := fnord
+	if j := strings.Index(fnord, "#"); j >= 0 {
+		fn = fnord[:j]
+	}
+	r.pmu.Lock()
+	defer r.pmu.Unlock()
+	st := r.acq[id]
+	if st == nil {
+		return ""
+	}
+	rule, known := AcqTable[st.cur]
+	if !known {
+		return ""
+	}
+	ok := false
+	if !st.extra {
+		for _, alt := range rule.at(st.n) {
+			if alt == fn+":"+text {
+				ok = true
+			}
+		}
+	}
+	st.n++
+	if ok {
+		return ""
+	}
+	st.extra = true
+	return "W" + fnord
+}
 
 // asynchronous items: what the environment may do at any time (they never release a request goroutine)
 func (it Item) async() bool {
@@ -445,6 +533,9 @@ func (r *runner) autoResume(items []Item, i int) {
 	for round := 0; round < 16; round++ {
 		moved := false
 		for _, in := range r.s.Snapshot() {
+			if r.xpark && isAdditional(in.Label) {
+				continue // parks until the thread's next "run" / "gcrun" item: the other threads' steps come in between
+			}
 			if in.State == vhook.Parked && isWindow(in.Label) && !handledAhead(items, i, in.ID) {
 				if r.s.Release(in.ID) {
 					moved = true
@@ -478,10 +569,32 @@ func RunSchedule(sc *Schedule, w *bufio.Writer, wd *vhook.Watchdog, reached map[
 	// compared with the model at the model's own granularity, and every W passage is written down ("Y" lines).
 	// SCHED_XPARK=w (exhibit run): W labels park until the schedule's "resume" item (asynchronous items in between) or are
 	// resumed at once when the schedule does not deal with them; X labels stay transparent (the run stays in step with the model).
-	// SCHED_XPARK=1: X labels park like every other label as well (a second thread-step where the model has one).
+	// SCHED_XPARK=1: X labels, and the windows of ADDITIONAL mutex acquisitions (W<func>#<n>), park like every other label
+	// (a second thread-step where the model has one: the other threads' ordinary steps are scheduled in between).
 	r.exhibit = os.Getenv("SCHED_XPARK") != "0"
 	r.xpark = r.exhibit && os.Getenv("SCHED_XPARK") != "w"
+	r.acq = map[int]*acqState{}
 	step := func(label string) {
+		if strings.HasPrefix(label, "A:") {
+			// a mutex acquisition found by text: part of the model step the thread is in, or an additional one (a window)
+			if AcqTable == nil || r.epi {
+				return
+			}
+			id, ok := r.s.Who()
+			if !ok {
+				return
+			}
+			if label = r.classify(id, label); label == "" {
+				return
+			}
+		} else if !isWindow(label) && !isSentinel(label) {
+			// a model label: the acquisitions that follow belong to this step
+			if id, ok := r.s.Who(); ok {
+				r.pmu.Lock()
+				r.acq[id] = &acqState{cur: label}
+				r.pmu.Unlock()
+			}
+		}
 		if isWindow(label) && !r.exhibit {
 			r.s.Count(label)
 			if id, ok := r.s.Who(); ok && !r.epi {
@@ -542,6 +655,35 @@ func RunSchedule(sc *Schedule, w *bufio.Writer, wd *vhook.Watchdog, reached map[
 		r.wait("drain gcrun")
 		k++
 		r.observe(k - 1)
+	}
+	// shape sentinels / additional acquisitions parking (SCHED_XPARK=1): the threads need more `run` items than the model's
+	// schedule has. Further items, round robin over the parked threads, until every call returned or is blocked.
+	if r.xpark {
+		for n := 0; n < 400 && !r.crashed; n++ {
+			moved := false
+			for _, in := range r.s.Snapshot() {
+				if in.State != vhook.Parked || r.crashed {
+					continue
+				}
+				moved = true
+				r.idx = k
+				kind := "run"
+				if in.ID >= GcTid0 {
+					fmt.Fprintf(w, "I %d gcrun\n", k)
+					kind = "gcrun"
+				} else {
+					fmt.Fprintf(w, "I %d run %d\n", k, in.ID)
+				}
+				w.Flush()
+				r.s.Release(in.ID)
+				r.wait("drain " + kind)
+				k++
+				r.observe(k - 1)
+			}
+			if !moved {
+				break
+			}
+		}
 	}
 	r.idx = k
 	if !r.crashed {
